@@ -75,6 +75,17 @@ func (ls2 *LeaseSet2) Verify() error {
 // Otherwise, the Destination's signing public key is returned.
 func (ls2 *LeaseSet2) signingPublicKeyForVerification() (types.SigningPublicKey, error) {
 	if ls2.HasOfflineKeys() && ls2.offlineSignature != nil {
+		// The transient key may only stand in for the destination's key if the
+		// offline block is itself signed by the destination's long-term key.
+		destKey, err := ls2.destination.SigningPublicKey()
+		if err != nil {
+			return nil, oops.Errorf("failed to get signing public key from Destination: %w", err)
+		}
+		if ok, err := ls2.offlineSignature.VerifySignature(destKey.Bytes()); err != nil {
+			return nil, oops.Errorf("failed to verify offline signature: %w", err)
+		} else if !ok {
+			return nil, oops.Errorf("offline signature is not valid under the destination's signing key")
+		}
 		// Use transient signing public key from offline signature
 		transientKeyBytes := ls2.offlineSignature.TransientPublicKey()
 		transientSigType := ls2.offlineSignature.TransientSigType()
